@@ -534,6 +534,19 @@ def run(case, ctx):
                 # the group lines are given as Line objects which the caller keeps
                 objs = [gfapy.Line(x, version="gfa2") for x in order]
                 doc = lines + objs
+            layout = rng.randrange(3)
+            if layout:
+                # the group lines arrive before the lines they mention, or among them (the items
+                # are placeholders until then)
+                gl = doc[len(lines):]
+                if layout == 1:
+                    doc = gl + lines
+                else:
+                    a, b, doc = list(lines), list(gl), []
+                    while a or b:
+                        src = a if (a and (not b or rng.random() < len(a) / (len(a) + len(b)))) else b
+                        doc.append(src.pop(0))
+                ctx.count("multiline_groups_before_their_items")
             rr = call(ctx, "Gfa(list)", gfapy.Gfa, doc, version="gfa2")
             ctx.count("multiline_orders")
             if not rr.ok:
@@ -578,6 +591,19 @@ def run(case, ctx):
             if len(g.sets) + len(g.paths) != 1:
                 ctx.violation("multiline-group-not-merged", "%r -> %r" % (order, [str(x) for x in g.sets + g.paths]))
                 return
+            if grp.record_type == "U":
+                # the merged set resolves over the complete graph (every item is a line of the Gfa now)
+                texts = {"g1": "U\tg1\t" + " ".join(want_items)}
+                ws, we = model_induced(case, "g1", texts)
+                r2 = call(ctx, "induced_segments_set", lambda: grp.induced_segments_set)
+                ctx.count("induced_sets")
+                if not r2.ok:
+                    ctx.violation("induced_segments_set-raises/%s/multiline" % r2.cls(), "arrival order %r: %s" % (order, str(r2.exc)[:200]))
+                    return
+                if set(x.name for x in r2.value) != ws:
+                    ctx.violation("induced_segments_set-differs/multiline", "arrival order %r: gfapy %r, model %r"
+                                  % (order, sorted(x.name for x in r2.value), sorted(ws)))
+                    return
         ctx.nontriv([case["lines"], groups])
         ctx.sample({"kind": kind, "groups": groups})
         return
